@@ -179,6 +179,8 @@ def run(ctx, res):
     flat = [p[1] for p in pairs] + [p[2] for p in pairs]
     pipeprop.run(ctx, res, "C15", PREFIX_PROFILE, n_quick=0, n_thorough=0, extra_cases=flat, label="both sides vs reference")
     bad, stats = 0, {}
+    listed = pipeprop.listed_findings()
+    known_hit = {}
     for kind, A, B, flags in pairs:
         for b in ("polars", "sqlite"):
             if flags.get("polars_only") and b == "sqlite":
@@ -193,6 +195,14 @@ def run(ctx, res):
             equal = ca == cb
             if equal and flags.get("ordered") and oa.rows != ob.rows:
                 equal = False
+            if not equal:
+                # a listed finding that explains a value difference of one of the two sides explains the difference of the pair
+                import findings
+                fl = {"kind": "rows", "exc": None, "msg": ""}
+                fid = findings.match(A, b, fl, listed) or findings.match(B, b, fl, listed)
+                if fid is not None:
+                    known_hit[fid] = known_hit.get(fid, 0) + 1
+                    continue
             if not equal and bad < 3:
                 bad += 1
                 res.violations.append({
@@ -201,5 +211,9 @@ def run(ctx, res):
                     "payload": {"kind": kind, "case": A, "case_b": B, "flags": flags, "backend": b,
                                 "failure": {"kind": "equivalence"},
                                 "observed": {"A": oa.to_json(), "B": ob.to_json()}}})
+    for fid, k in sorted(known_hit.items()):
+        line = f"{fid} {listed[fid]['what'][:200]}"
+        if not any(x.startswith(fid + " ") for x in res.known):
+            res.known.append(f"{line} ({k} pairs)")
     res.coverage["equivalence_pairs"] = stats
     res.coverage["evaluations"] = res.coverage.get("evaluations", 0) + 2 * sum(stats.values())
